@@ -37,7 +37,7 @@ CLAIMED.update({
    technique='Coq proof (loop/run specification, grid lemmas over R); bit-exact correspondence incl. long grids', ref='6 C11'),
  'C12': dict(text='Machine-checked: stepping over concatenated grids equals stepping over them in sequence, hence run(T1); continue(T2) with the same step equals run(T1+T2) as whole states whenever the grids concatenate; reset, optionally a new Solver, re-applying the initial position and speed, and the same run reproduce the original history in every observable field of every instant together with the live values and the lock flag, for every chain, load, rule set, stop condition, dt and T, provided the duty cycle recorded at instant 0 (which reset restores) is the one the run started from; without that proviso the statement is refuted by finding D4 (witness evaluated in the model). Cross-unit continuation is _partial (correspondence + exact metamorphic search).', note=SOLVER_NOTE,
    technique='Coq proof (fold concatenation, state equality, simulation relation between run and rerun) + refuted witness by vm_compute; bit-exact correspondence on schedules incl. the histories at every reset; metamorphic search', ref='6 C12'),
- 'C13': dict(text='Machine-checked for every reachable recorded instant: without a self-locking mating the flag is never set; duty cycle in force zero => held; held => all speeds and accelerations are the zero constants; not held => motor speed not below (above) zero for positive (negative) duty cycle in force; a release happens only when the previously recorded motor net torque has the strict sign of the duty cycle in force.', note=SOLVER_NOTE + ' "Duty cycle in force" is the motor attribute at the lock test (previous recorded value or the user-set one), the reading under which the property can hold. The self-locking flag of the powertrain is an input of this model; its derivation from friction and geometry is C10/C20.',
+ 'C13': dict(text='Machine-checked for every reachable recorded instant: without a self-locking mating the flag is never set; duty cycle in force zero => held; held => all speeds and accelerations are the zero constants; not held => motor speed not below (above) zero for positive (negative) duty cycle in force; a release happens only when the previously recorded motor net torque has the strict sign of the duty cycle in force; over the reals, the instant following a held instant records the same output position in SI (positions stay constant while held), for any units and step.', note=SOLVER_NOTE + ' "Duty cycle in force" is the motor attribute at the lock test (previous recorded value or the user-set one), the reading under which the property can hold. The self-locking flag of the powertrain is an input of this model; its derivation from friction and geometry is C10/C20.',
    technique='Coq proof (case analysis of the lock decision + history invariant); bit-exact correspondence incl. the private flag', ref='6 C13'),
  'C14': dict(text='Machine-checked: arbitration returns the default 1 with no proposal, the saturated proposal with exactly one, ValueError with two or more; the duty cycle recorded at a controlled instant is that arbitration of the proposals at that instant; every recorded duty cycle of every reachable state passes the setter\'s range test -1 <= p <= 1 (so in binary64 it is not NaN).', note=SOLVER_NOTE + ' About the setter as repaired by the D10 fix commit.',
    technique='Coq proof (case analysis + invariant over operation sequences); bit-exact correspondence on rule sets', ref='6 C14'),
